@@ -401,7 +401,15 @@ func (c *Caller) InvokeContext(ctx context.Context, id string, name string, args
 			return result.Value(returnType)
 		}
 	}
-	return (<-result).Value(returnType)
+	// without a time-out of its own the call still ends with its context
+	select {
+	case <-ctx.Done():
+		calls.Delete(index)
+		results.Delete(index)
+		return nil, ctx.Err()
+	case result := <-result:
+		return result.Value(returnType)
+	}
 }
 
 func (c *Caller) UseService(remoteService interface{}, id string, namespace ...string) {
